@@ -421,6 +421,15 @@ class C20(Prop):
             return h, build_psi("complex", [n], rs), [n]
         shape = shapes_of(n, case["order"], rs)
         psi = build_psi(case["pdtype"], shape, rs)
+        # memory layout: tensors handed to the propagator are often transposed views (lazy leg
+        # permutations), so half of the tensors of order >= 2 are non-C-contiguous (same values)
+        if len(shape) >= 2:
+            lay = case["seed"] % 4
+            if lay == 1:
+                psi = np.asfortranarray(psi)
+            elif lay == 2:
+                perm = list(range(len(shape)))[::-1]
+                psi = np.ascontiguousarray(psi.transpose(perm)).transpose(perm)   # a transposed view
         return h, psi, shape
 
     def _te(self, rec, case):
